@@ -57,7 +57,7 @@ Theorem enforced_covers_wire src init :
   (src = LPlain -> enforced_limit src init = wire_limit src).
 Proof.
   assert (Ha : m_advlimit (mgr_run (limit_call src) (mgr_init init)) =
-               match src with LSpec (Some v) => v | _ => 0 end) by (destruct src as [|[v|]]; reflexivity).
+               match src with LSpec (Some v) => v | LSpec None => 2 | LPlain => 0 end) by (destruct src as [|[v|]]; reflexivity).
   unfold enforced_limit. rewrite Ha. unfold wire_limit, MaxActiveConnectionIDs.
   destruct src as [|[v|]]; (split; [lia|split; [intros; lia|intros Hs; try discriminate Hs; lia]]).
 Qed.
@@ -71,7 +71,7 @@ Theorem enforced_limit_is_C12 (a : AdvEnf.Model.limits) (c : AdvEnf.Model.config
   AdvEnf.Model.l_cid (AdvEnf.Model.plain_advertised c) = wire_limit LPlain.
 Proof.
   intros H.
-  assert (Ha : m_advlimit (mgr_run (limit_call (LSpec v)) (mgr_init init)) = match v with Some x => x | None => 0 end)
+  assert (Ha : m_advlimit (mgr_run (limit_call (LSpec v)) (mgr_init init)) = match v with Some x => x | None => 2 end)
     by (destruct v; reflexivity).
   unfold enforced_limit. rewrite Ha.
   assert (He : AdvEnf.Model.l_cid (AdvEnf.Model.enforced_spec a c) = Z.max protoMaxActiveConnectionIDs (AdvEnf.Model.l_cid a)) by reflexivity.
